@@ -63,6 +63,8 @@ func newStub() *tx.Stub {
 			return sp(canon(oc.Extensions)), nil
 		case *in == "raw:":
 			return sp(oc.RawQuery), nil
+		case strings.HasPrefix(*in, "panic:"):
+			panic("resolver panics on request: " + *in) // deterministic: always, for this argument
 		}
 		return in, nil
 	}
@@ -283,9 +285,24 @@ func newServer(cache string) *server {
 	h.Use(s.spy)
 	h.Use(extension.Introspection{})
 	h.Use(extension.AutomaticPersistedQuery{Cache: s.apq})
-	h.SetRecoverFunc(func(ctx context.Context, err any) error {
-		s.recover.Add(1)
-		return fmt.Errorf("internal panic: %v", err)
+	if cache == "lru" {
+		h.SetRecoverFunc(func(ctx context.Context, err any) error {
+			s.recover.Add(1)
+			return fmt.Errorf("internal panic: %v", err)
+		})
+	} // else: the default recover function
+	// an application response middleware that echoes a request header into the response extensions
+	h.AroundResponses(func(ctx context.Context, next graphql.ResponseHandler) *graphql.Response {
+		resp := next(ctx)
+		if resp != nil && graphql.HasOperationContext(ctx) {
+			if v := graphql.GetOperationContext(ctx).Headers.Get("X-Leak"); v != "" {
+				if resp.Extensions == nil {
+					resp.Extensions = map[string]any{}
+				}
+				resp.Extensions["xleak"] = v
+			}
+		}
+		return resp
 	})
 	s.h = h
 	return s
